@@ -102,6 +102,9 @@ class OpWorld(World):
         self.subs = []  # (source opaque, handlers tuple, kwargs)
         self.scheduled = []
         self.disposed = []
+        self.specobs = []
+        self.cspecs = []  # (spec obj, contract, wrapper state, downstream adapter) of callee stages, in subscription order
+        self.harness = None
 
     def trace(self, name):
         if name not in self.traces:
@@ -114,7 +117,7 @@ class OpWorld(World):
     def hasattr(self, it, o, name):
         if o.kind == "observer":
             return name in ("on_next", "on_error", "on_completed")
-        if o.kind == "source":
+        if o.kind in ("source", "specobs"):
             return name in ("subscribe", "pipe", "lock")
         if o.kind == "disposable":
             return name in ("dispose",)
@@ -124,7 +127,7 @@ class OpWorld(World):
         n = getattr(cls, "name", None)
         if o.kind == "observer":
             return n in ("ObserverBase",)
-        if o.kind == "source":
+        if o.kind in ("source", "specobs"):
             return n in ("ObservableBase", "Observable")
         if o.kind == "disposable":
             return n in ("DisposableBase",)
@@ -132,8 +135,100 @@ class OpWorld(World):
             return n in ("SchedulerBase",)
         return super().isinstance(it, o, cls)
 
+    # -- callee contracts: an operator applied inside another operator is its spec machine -------
+    def make_specobs(self, it, c, params, source):
+        n = len(self.specobs)
+        o = Opaque("specobs", f"{c.name}#{n}", contract=c, params=params, source=source,
+                   lock=Opaque("lock", f"{c.name}#{n}.lock", reentrant=True))
+        self.specobs.append(o)
+        return o
+
+    def subscribe_specobs(self, it, o, hs, kwargs):
+        """subscribing to a callee = running its spec machine between its source and the subscriber (wrapped, C01)"""
+        h = self.harness
+        c = o.attrs["contract"]
+        modname, clsname = c.spec.split(":")
+        s = Obj(it.module_get(modname, clsname))
+        for n, v in o.attrs["params"].items():
+            s.fields[n] = v
+        for sname in c.sources:
+            s.fields[sname] = o.attrs["source"]
+        idx = len(self.cspecs)
+        state = {"stopped": False, "in_stopped": False}
+        out = Opaque("observer", f"stage{idx}", handlers=tuple(hs), state=state)
+        self.cspecs.append((s, c, state, out))
+        h.spec_call(it, s, "init", [])
+        h.spec_call(it, s, "on_subscribe", [out])
+
+        def h_next(it_, a, k):
+            if state["in_stopped"]:
+                return None
+            r = h.spec_call(it, s, "on_next", [out, a[0]])
+            if r is NOTSET:
+                raise Unsupported(f"spec {c.spec} lacks on_next")
+            return None
+
+        def h_error(it_, a, k):
+            if state["in_stopped"]:
+                return None
+            state["in_stopped"] = True
+            if h.spec_call(it, s, "on_error", [out, a[0]]) is NOTSET:
+                it.call(OpaqueMethod(out, "on_error"), [a[0]], {})
+            return None
+
+        def h_completed(it_, a, k):
+            if state["in_stopped"]:
+                return None
+            state["in_stopped"] = True
+            if h.spec_call(it, s, "on_completed", [out]) is NOTSET:
+                it.call(OpaqueMethod(out, "on_completed"), [], {})
+            return None
+
+        up = it.call(it.get_attr(o.attrs["source"], "subscribe"),
+                     [Native(f"stage{idx}.on_next", h_next), Native(f"stage{idx}.on_error", h_error),
+                      Native(f"stage{idx}.on_completed", h_completed)], {"scheduler": kwargs.get("scheduler")})
+        return up
+
+    def norm_handlers(self, it, args, kwargs):
+        hs = list(args) + [None] * (3 - len(args))
+        hs[0] = kwargs.get("on_next", hs[0])
+        hs[1] = kwargs.get("on_error", hs[1])
+        hs[2] = kwargs.get("on_completed", hs[2])
+        if isinstance(hs[0], Opaque) and hs[0].kind == "observer":
+            obs = hs[0]
+            hs = [OpaqueMethod(obs, "on_next"), OpaqueMethod(obs, "on_error"), OpaqueMethod(obs, "on_completed")]
+        elif isinstance(hs[0], Obj) and it.has_attr(hs[0], "on_next"):
+            obs = hs[0]
+            hs = [it.get_attr(obs, "on_next"), it.get_attr(obs, "on_error"), it.get_attr(obs, "on_completed")]
+        return hs[:3]
+
     def call(self, it, o, method, args, kwargs):
         k = o.kind
+        if k == "observer" and "handlers" in o.attrs:
+            # the subscriber of a callee stage, behind the wrapper Observable.subscribe puts around it (C01)
+            st = o.attrs["state"]
+            hn, he, hc = o.attrs["handlers"]
+            if st["stopped"]:
+                return None
+            if method == "on_next":
+                if hn is not None:
+                    it.call(hn, [args[0]], {})
+                return None
+            st["stopped"] = True
+            if method == "on_error":
+                if he is None:
+                    raise PyExc(args[0])  # default_error re-raises
+                it.call(he, [args[0]], {})
+            elif hc is not None:
+                it.call(hc, [], {})
+            return None
+        if k in ("source", "specobs") and method == "pipe":
+            cur = o
+            for op in args:
+                cur = it.call(op, [cur], {})
+            return cur
+        if k == "specobs" and method == "subscribe":
+            return self.subscribe_specobs(it, o, self.norm_handlers(it, args, kwargs), kwargs)
         if k == "observer":
             tr = self.trace(o.name)
             if method == "on_next":
@@ -150,16 +245,7 @@ class OpWorld(World):
                 tr.completed()
                 return None
         if k == "source" and method == "subscribe":
-            hs = list(args) + [None] * (3 - len(args))
-            hs[0] = kwargs.get("on_next", hs[0])
-            hs[1] = kwargs.get("on_error", hs[1])
-            hs[2] = kwargs.get("on_completed", hs[2])
-            if isinstance(hs[0], Opaque) and hs[0].kind == "observer":
-                obs = hs[0]
-                hs = [OpaqueMethod(obs, "on_next"), OpaqueMethod(obs, "on_error"), OpaqueMethod(obs, "on_completed")]
-            elif isinstance(hs[0], Obj) and it.has_attr(hs[0], "on_next"):
-                obs = hs[0]
-                hs = [it.get_attr(obs, "on_next"), it.get_attr(obs, "on_error"), it.get_attr(obs, "on_completed")]
+            hs = self.norm_handlers(it, args, kwargs)
             d = Opaque("disposable", f"sub:{o.name}:{len(self.subs)}")
             self.subs.append((o, hs, kwargs, d))
             self.events.append(("subscribe", o.name, d))
@@ -261,6 +347,11 @@ def make_param(it, ctx, name, kind):
         return Opaque("callback", name)
     if kind == "pred":
         return Opaque("callback", name)
+    if kind.startswith("notset:"):
+        # an optional argument whose "absent" marker is the NotSet sentinel class
+        if ctx.choose(2, f"{name}_given") == 0:
+            return make_param(it, ctx, name, kind[7:])
+        return it.module_get("reactivex.internal.utils", "NotSet")
     if kind.startswith("opt:"):
         if ctx.choose(2, f"{name}_given") == 0:
             return make_param(it, ctx, name, kind[4:])
@@ -320,18 +411,47 @@ def resolve_path(it, env, dotted):
 
 
 class OpHarness:
-    def __init__(self, contract: OpContract, loader: Loader | None = None):
+    def __init__(self, contract: OpContract, loader: Loader | None = None, callees=()):
         self.c = contract
         self.loader = loader or Loader()
         self.results: list[Result] = []
         self.unsupported = None
         self.functions = {}
+        #: contracts of other operators: inside this operator they are used by contract, not by body
+        self.callees = {(x.file[:-3].replace("/", "."), x.func): x for x in callees}
+        self.used_callees = set()
+
+    def callee_hook(self, it, f, args, kwargs):
+        """a contracted operator applied inside the operator under verification is replaced by its contract"""
+        if not (isinstance(f, Closure) and f.module is not None and hasattr(f.node, "name")):
+            return NOTSET
+        c = self.callees.get((f.module.name, f.qualname))
+        if c is None:
+            return NOTSET
+        if c is self.c and not self.entered:
+            self.entered = True
+            return NOTSET
+        env = Env(None, f.module, f)
+        it.bind_args(f, args, kwargs, env)
+        a = f.node.args
+        first = (a.posonlyargs + a.args)[0].arg if (a.posonlyargs + a.args) else None
+        self.used_callees.add(c.uid)
+        if first in c.sources:
+            params = {n: env.vars[n] for n in c.params if n in env.vars}
+            return self.w.make_specobs(it, c, params, env.vars[first])
+        # two-step factory: f(args) returns the operator, applied to the source later
+        params = {n: env.vars[n] for n in c.params if n in env.vars}
+        return Native(f"{c.name}-operator", lambda it_, a2, k2: self.w.make_specobs(it, c, params, a2[0]))
 
     # -- building blocks (each executed inside one path) -----------------------
     def setup(self, ctx):
         c = self.c
         w = OpWorld()
+        w.harness = self
+        self.entered = False
         it = Interp(self.loader, ctx, w)
+        if self.callees:
+            it.call_hook = self.callee_hook
         it.loop_contracts = dict(c.loops)
         it.on_loop = self.on_loop
         modname = c.file[:-3].replace("/", ".")
@@ -434,7 +554,16 @@ class OpHarness:
 
     def check_inv(self, it, ctx, oid, env, s):
         inv_env = Env(env, env.module)
+        # cells that live in other closure scopes of the operator (e.g. a projection handed to a callee)
+        for e in getattr(self, "extra_envs", []):
+            ee = e
+            while ee is not None and ee.fn is not None:
+                for k, v in ee.vars.items():
+                    if env.lookup_env(k) is None:
+                        inv_env.vars.setdefault(k, v)
+                ee = ee.parent
         inv_env.vars["s"] = s
+        inv_env.vars["c"] = tuple(cs for (cs, cc, st, out) in self.w.cspecs)
         inv_env.vars.update(self.pvals)
         for n, f in SPEC_HELPERS.items():
             inv_env.vars[n] = f
@@ -542,12 +671,18 @@ class OpHarness:
             t = it.truth_term(self.eval_src(it, cond, env))
             ctx.spec -= 1
             self.record(ctx, f"{uid}/apply/must-raise-{exname}", z3.Not(t) if not isinstance(t, bool) else (not t), kind="raises")
-        if not (isinstance(obs, Obj) and "_subscribe" in obs.fields):
-            raise Unsupported(f"application result is not Observable(subscribe): {obs!r}")
-        sub = obs.fields["_subscribe"]
         s = self.make_spec(it, ctx, params)
         self.spec_call(it, s, "init", [])
         observer = env.vars["observer"]
+        if isinstance(obs, Opaque) and obs.kind == "specobs":
+            # a pure composition: the result is the last callee stage
+            def sub(it_, a, k):
+                return w.call(it, obs, "subscribe", [a[0]], {"scheduler": a[1]})
+            sub = Native("subscribe-composition", sub)
+        elif isinstance(obs, Obj) and "_subscribe" in obs.fields:
+            sub = obs.fields["_subscribe"]
+        else:
+            raise Unsupported(f"application result is not Observable(subscribe): {obs!r}")
         try:
             disp = it.call(sub, [observer, env.vars["scheduler"]], {})
         except PyExc as e:
@@ -562,6 +697,14 @@ class OpHarness:
             for h in hs:
                 if isinstance(h, Closure) and cells_env is None:
                     cells_env = h.env
+        # closures handed to callee stages (e.g. scan's projection given to map) carry cells too
+        self.extra_envs = []
+        for (cs, cc, st, out) in w.cspecs:
+            for v in cs.fields.values():
+                if isinstance(v, Closure) and v.env is not None:
+                    self.extra_envs.append(v.env)
+        if cells_env is None and self.extra_envs:
+            cells_env = self.extra_envs[0]
         sdone = self.spec_done(it, ctx, s)
         impl_term = w.trace("observer").terminal is not None
         if not handlers:
@@ -579,8 +722,26 @@ class OpHarness:
     def havoc(self, it, ctx, cells_env, s):
         c = self.c
         for n, kind in c.cells.items():
-            get, set_, leaf = resolve_path(it, cells_env, n)
+            found = None
+            for e in [cells_env] + list(getattr(self, "extra_envs", [])):
+                try:
+                    found = resolve_path(it, e, n)
+                    break
+                except Unsupported:
+                    continue
+            if found is None:
+                raise Unsupported(f"cell {n} not found in any closure scope of the operator (drift)")
+            get, set_, leaf = found
             havoc_cell(it, ctx, cells_env, leaf, kind, get, set_)
+        self.havoc_spec_fields(it, ctx, s, c, "s_")
+        # callee stages: their spec state is arbitrary too; a stage that already terminated downstream is stopped
+        for idx, (cs, cc, st, out) in enumerate(self.w.cspecs):
+            self.havoc_spec_fields(it, ctx, cs, cc, f"c{idx}_")
+            d = self.spec_done(it, ctx, cs)
+            st["stopped"] = d if isinstance(d, bool) else ctx.branch(d, f"stage{idx} already terminated")
+            st["in_stopped"] = False
+
+    def havoc_spec_fields(self, it, ctx, s, c, prefix):
         # spec state: havoc every non-parameter field by the kind of its initial value
         for n, v in list(s.fields.items()):
             if n in c.params or n in c.sources:
@@ -597,7 +758,7 @@ class OpHarness:
                     kind = "val"
                 else:
                     raise Unsupported(f"spec field {n} kind")
-            havoc_cell(it, ctx, None, "s_" + n, kind, lambda _n, _k=n: s.fields[_k], lambda _n, val, _k=n: s.fields.__setitem__(_k, val))
+            havoc_cell(it, ctx, None, prefix + n, kind, lambda _n, _k=n: s.fields[_k], lambda _n, val, _k=n: s.fields.__setitem__(_k, val))
 
     def run_handler(self, ctx, source, slot):
         """one path of one handler obligation"""
